@@ -50,7 +50,7 @@ vlib.standard_check({
                      "harness/c04.cpp + Driver/C04.lean line protocol, Sched/Expr.lean (Node_Logic/Node_Arithmetic semantics used to "
                      "evaluate the generated combinational cones)",
                      "boost::rational<uint64_t> modelled as Rat (generators stay below the 2^64 cross-product bound)"],
-    "level_text": "Lean model of the simulator's event queue/phases/power-on, of Node_Register and of derived clocks with pin sharing; "
+    "level_text": "Lean model of the simulator's event queue/phases/power-on, of Node_Register and of derived clocks with pin sharing and attribute inheritance (deriveDecl, recomputed for every derived clock from the configuration passed to deriveClock); "
                   "theorems for all programs (arbitrary combinational functions), all reachable states and any pop order among "
                   "equal-time events: exact register step, no change at other events, INT_IN_RESET = reset level (active level honoured), "
                   "pre-edge sampling and commit-order irrelevance across domains, j-th clock edge at exactly j/(2f), k-th activation at "
